@@ -24,6 +24,8 @@ def gen_dir_tree(rng):
         name = name.replace("/", "")
         if name and name not in t:
             t[name] = ("f", b"c%d" % rng.randrange(9))
+    if rng.random() < 0.6:
+        T.add_order_siblings(rng, t, rng.randrange(1, 4))
     if rng.random() < 0.2:
         for j in range(40):
             t["many%02d" % j] = ("f", b"%d" % j)
@@ -101,12 +103,13 @@ def one_case(rng, res):
         agreed = i == m
         exp, entries = documented_digest(t, patterns)
         desc = {"variant": label, "patterns": patterns, "n_files": len(entries), "dir": name}
+        full = {"op": "dir_digest", "desc": desc, "tree": T.to_jsonable(t)}
         res.case({"desc": desc, "impl": i}, len(entries) >= 2, agreed, sample_cap=2)
         res.count("variant_" + label.split(":")[0])
         if not agreed:
-            res.fail("disagree", {"op": "dir_digest", "desc": desc}, {"op": "record dir:", "impl": i, "model": m})
+            res.fail("disagree", full, {"op": "record dir:", "impl": i, "model": m})
         if i != {"ok": [["dir:" + name, exp]]}:
-            res.fail("oracle", {"op": "dir_digest", "desc": desc},
+            res.fail("oracle", full,
                      {"why": "dir: digest is not the SHA-256 of the documented '<sha256>  <path>' lines in byte order",
                       "impl": i, "expected": exp})
         digests.append((i.get("ok"), entries))
@@ -183,7 +186,20 @@ def run(tier, seed):
 
 
 def replay(case):
-    return {"note": "trees are regenerated from the seed", "case": case}
+    if case.get("op") != "dir_digest" or "tree" not in case:
+        return {"note": "regenerated from the seed", "case": case}
+    import random
+    t = T.from_jsonable(case["tree"])
+    name, patterns = case["desc"]["dir"], case["desc"]["patterns"]
+    d = tempfile.mkdtemp(prefix="verif-c20-")
+    try:
+        materialise_shuffled(t, os.path.join(d, name), random.Random(0))
+        i = impl_dir(d, name, patterns)
+    finally:
+        shutil.rmtree(d, ignore_errors=True)
+    m, _raw = model_dir(t, name, patterns)
+    exp, entries = documented_digest(t, patterns)
+    return {"impl": i, "model": m, "documented_digest": exp, "entries": sorted(entries)}
 
 
 def search(failure, tier, seed):
